@@ -51,6 +51,8 @@ impl<'t> Worker<'t> {
             return;
         }
         self.tokenizer.build_lattice(&self.sent, &mut self.lattice);
+        // The result must not accumulate when tokenize() is called again for the same sentence.
+        self.top_nodes.clear();
         self.lattice.append_top_nodes(&mut self.top_nodes);
     }
 
